@@ -4463,7 +4463,8 @@ class DecConvex(Convex):
 
     def __init__(self, convex, event_adapt):
 
-        if not getattr(convex.affine_in, 'fixed', True):
+        if not (getattr(convex.affine_in, 'fixed', True) and
+                getattr(convex.affine_out, 'fixed', True)):
             raise ValueError('Incorrect convex expressions.')
 
         super().__init__(convex.affine_in, convex.affine_out,
@@ -4678,7 +4679,8 @@ class DecPerspConvex(PerspConvex):
     def __init__(self, convex, event_adapt):
 
         if not (getattr(convex.affine_in, 'fixed', True) and
-                getattr(convex.affine_scale, 'fixed', True)):
+                getattr(convex.affine_scale, 'fixed', True) and
+                getattr(convex.affine_out, 'fixed', True)):
             raise ValueError('Incorrect convex expressions.')
 
         super().__init__(convex.affine_in, convex.affine_scale, convex.affine_out,
